@@ -380,6 +380,7 @@ type c14Pruner struct {
 	limit      int
 	overrun    bool
 	crashAt    int // panic with c14Crash on this cycle call (0 = never)
+	failRun    int // consecutive failed Prune calls within the current cycle
 
 	gate *c14Gate // pauses the next on-delete Prune call
 }
@@ -432,6 +433,20 @@ func (p *c14Pruner) Prune(ctx context.Context, eh *header.ExtendedHeader) error 
 	}
 
 	ok := !p.fail.fails(h)
+	if seq != 0 {
+		// known-finding guard: while the non-terminating shape is listed as open, no cycle is
+		// allowed to see a batch without progress: cap consecutive failures, or cap-1 of them
+		// behind the always re-included first header - the (cap-1)-th failure in a row is healed
+		if !ok && !m.noGuards && p.failRun >= m.p.Cap-2 && vk.KnownOpen(c14SigAllFail) {
+			vk.Excluded(c14SigAllFail)
+			ok = true
+		}
+		if ok {
+			p.failRun = 0
+		} else {
+			p.failRun++
+		}
+	}
 	p.calls = append(p.calls, c14Call{height: h, ok: ok, onDel: onDel, cycle: seq})
 	if !ok {
 		p.failed[h] = struct{}{}
@@ -464,7 +479,8 @@ type c14Machine struct {
 	svc   *Service
 	chain map[uint64]*header.ExtendedHeader // every header ever appended
 
-	window time.Duration
+	window   time.Duration
+	noGuards bool // fixed witnesses: known-finding exemptions off
 
 	startTail     uint64 // the pruner's starting point: tail when the checkpoint was initialised
 	lastPersisted uint64
@@ -561,7 +577,7 @@ func (m *c14Machine) cycleBudget() (old, limit int) {
 	m.pr.mu.Lock()
 	defer m.pr.mu.Unlock()
 	limit = 3*(old+len(m.pr.failed)) + 3
-	m.pr.armed, m.pr.cycleCalls, m.pr.limit, m.pr.overrun = true, 0, limit, false
+	m.pr.armed, m.pr.cycleCalls, m.pr.limit, m.pr.overrun, m.pr.failRun = true, 0, limit, false, 0
 	m.pr.cycleSeq++
 	if old > m.p.Cap {
 		m.label("batch-cap-hit")
@@ -954,7 +970,7 @@ func (m *c14Machine) checkL() error {
 		} else if _, ok := m.unordered[h]; ok {
 			sig, why = c14SigUnordered, "its on-delete callback ran after the callback of a higher height had raised the checkpoint"
 		}
-		if sig != "" && vk.KnownOpen(sig) {
+		if sig != "" && !m.noGuards && vk.KnownOpen(sig) {
 			vk.Excluded(sig)
 			continue
 		}
@@ -1195,6 +1211,7 @@ func (m *c14Machine) record() {
 
 func c14Uniform(p c14Params, n int) *c14Machine {
 	m := newC14Machine(p)
+	m.noGuards = true
 	m.appendOne(0)
 	for i := 1; i < n; i++ {
 		m.appendOne(p.BlockTime)
